@@ -1739,8 +1739,10 @@ def nt_check(op, v, out, x):
     else a text.  Used for the distinct-objects call AND for the aliased call (randomised algorithms: A == F is not required)."""
     try:
         if op == "phi": return None if out[0] == _phi(v[1]) else "phi(%d) is %d" % (v[1], _phi(v[1]))
-        if op == "lambda_inv" or op == "lambda" and v[1] % 8 != 0: return None if out[0] == _carmichael(v[1]) else "lambda(%d) is %d" % (v[1], _carmichael(v[1]))
-        if op in ("lambda_primpow", "lambda_inv_primpow") and (v[1] != 2 or x < 3 or op == "lambda_inv_primpow"):
+        # lambda / lambda_primpow / prim_elem (maximal orbit over ALL elements, tails included) are C13's subject: judged here by the
+        # equality of the aliased and the distinct-objects call only (they are deterministic); lambda_inv is Carmichael's function
+        if op == "lambda_inv": return None if out[0] == _carmichael(v[1]) else "lambda_inv(%d) is %d" % (v[1], _carmichael(v[1]))
+        if op == "lambda_inv_primpow":
             return None if out[0] == _carmichael(v[1] ** x) else "lambda(%d^%d) is %d" % (v[1], x, _carmichael(v[1] ** x))
         if op == "order": return None if out[0] == (_order(v[1] % v[2], v[2]) or 0) else "the order of %d mod %d is %s" % (v[1], v[2], _order(v[1] % v[2], v[2]))
         if op in ("lowest_prim_root", "prim_root", "prim_root.w", "prim_root_of_prime", "probable_prim_root"):
